@@ -354,7 +354,9 @@ int main(int argc, char** argv) {
                 continue;
             }
             vh::Rng r = vh::rng_for("corr", t);
-            const int n = (t % 10 == 0) ? int(r.range(500, 2000)) : int(r.range(3, 300));
+            //a few fixed large sizes (integer overflow in rank formulas starts around n^3 > 2^31, i.e. n = 1291) plus random ones
+            const int fixed_n[6] = {1290, 1291, 1292, 1625, 1999, 2000};
+            const int n = (t < 6) ? fixed_n[t] : ((t % 10 == 0) ? int(r.range(500, 2000)) : int(r.range(3, 300)));
             arr_real x(n), y(n);
             const double rho = r.uni(-1, 1);
             const double mux = r.uni(-5, 5), muy = r.uni(-5, 5);
